@@ -116,6 +116,7 @@ def dedup(repo: Repo) -> RuleRun:
         ("existing, same order", 1, 2, True, 0, 1),
         ("existing, reversed", 2, 1, True, 0, 1),
         ("new and valid", 3, 4, True, 1, 2),
+        ("new and valid, first vertex has the higher index", 9, 2, True, 1, 2),
         ("new but invalid (line / zero length / collinear arc)", 3, 4, False, 1, 1),
     ):
         this = Obj("edge_list", cls=elist)
@@ -140,7 +141,8 @@ def dedup(repo: Repo) -> RuleRun:
         ok = len(created) == n_created and len(listed) == n_listed and (res is e12 if n_created == 0 else res is created[0])
         if n_created and ok:
             ok = created[0].get("vertex_1").get("index") == a and created[0].get("vertex_2").get("index") == b and repr(created[0].get("data")) == "data"
-        r.check(ok, add, f"{label}: created {len(created)}, listed {len(listed)}", f"EdgeList.add [{label}]: created {len(created)} edge(s), list has {len(listed)} entries, returned {res!r}; expected {n_created} created and {n_listed} listed", add.node, key=f"add:{label}")
+        got_ends = (created[0].get("vertex_1").get("index"), created[0].get("vertex_2").get("index")) if created else None
+        r.check(ok, add, f"{label}: created {len(created)}, listed {len(listed)}", f"EdgeList.add [{label}]: created {len(created)} edge(s) {('from vertex %s to vertex %s' % got_ends) if got_ends else ''} (asked: {a} to {b}), list has {len(listed)} entries, returned {res!r}; expected {n_created} created and {n_listed} listed - the edge data (spline points, the sense of an angle-and-axis arc) is directed from the first to the second vertex it was given with", add.node, key=f"add:{label}")
 
     # Edge.is_valid
     edge_cls = repo.cls("items.edges.edge.Edge")
@@ -504,4 +506,13 @@ def reflex_midpoint(repo: Repo) -> RuleRun:
 
 reflex_midpoint.rule_id = "C07.REFLEX-MIDPOINT"
 
-RULES = [kind_registry, dedup, direction, reversal, face_edge_slots, curve_direction, edge_slots, length_direction, arc_side, validity_tolerance, own_edge_data, no_memo, reflex_midpoint]
+def arguments_untouched(repo: Repo) -> RuleRun:
+    """'each curved edge is written with ITS data': the label list of one projected edge is not the caller's list (shared with every other edge built from it). Same rule as C09.ARGUMENTS-UNTOUCHED."""
+    from ..alias import argument_mutation_rule
+
+    return argument_mutation_rule(repo, PROP, "C07.ARGUMENTS-UNTOUCHED")
+
+
+arguments_untouched.rule_id = "C07.ARGUMENTS-UNTOUCHED"
+
+RULES = [kind_registry, dedup, direction, reversal, face_edge_slots, curve_direction, edge_slots, length_direction, arc_side, validity_tolerance, own_edge_data, no_memo, reflex_midpoint, arguments_untouched]
